@@ -102,44 +102,48 @@ func ruleC16(c *Ctx, r *Report) {
 			return k == "net/http.NewRequestWithContext" || k == "net/http.NewRequest"
 		}) {
 			urlArg := nr.Call.Args[len(nr.Call.Args)-2]
-			sp, ok := urlArg.(*ssa.Call)
-			if !ok || calleeKey(&sp.Call) != "fmt.Sprintf" {
-				r.Undecided("C16-R1", fn.Name()+":url", c.InstrPos(nr), "request URL is not a fmt.Sprintf of a constant format")
+			shapes := urlShapes(urlArg, nr.Block())
+			if len(shapes) == 0 {
+				r.Undecided("C16-R1", fn.Name()+":url", c.InstrPos(nr), "request URL cannot be read")
 				continue
 			}
-			format, okF := constString(sp.Call.Args[0])
-			ops := varargValues(sp.Call.Args[1])
-			pre, verbs := fmtSegments(format)
-			if !okF || len(ops) != len(verbs) {
-				r.Undecided("C16-R1", fn.Name()+":url", c.InstrPos(sp), "cannot align URL format verbs with operands")
-				continue
-			}
-			for i, p := range pre {
-				op := peel(ops[i])
-				switch {
-				case strings.HasSuffix(p, "startDate="):
-					r.Check(t0.Has(op) && !t1.Has(op), "C16-R1", fn.Name()+":url(startDate=)", c.InstrPos(sp), "operand after startDate= is the window start", "the operand after 'startDate=' is not the start of the requested window (crossed or lost)")
-				case strings.HasSuffix(p, "endDate="):
-					r.Check(t1.Has(op) && !t0.Has(op), "C16-R1", fn.Name()+":url(endDate=)", c.InstrPos(sp), "operand after endDate= is the window end", "the operand after 'endDate=' is not the end of the requested window (crossed or lost)")
-				case strings.HasSuffix(p, "groups/"):
-					r.Check(tProj.Has(op) && !tClu.Has(op), "C16-R1", fn.Name()+":url(groups/)", c.InstrPos(sp), "segment after groups/ is --atlasProjectId", "the segment after 'groups/' is not the project id")
-				case strings.HasSuffix(p, "clusters/"):
-					if wantHostRole == "cluster" {
-						r.Check(tClu.Has(op) && !tProj.Has(op), "C16-R1", fn.Name()+":url(clusters/)", c.InstrPos(sp), "segment after clusters/ is --atlasClusterName", "the segment after 'clusters/' is not the cluster name")
-					} else {
-						// must be the host parameter bound from the host-loop element (R3 checks the binding)
-						_, isParam := op.(*ssa.Parameter)
-						r.Check(isParam && !tClu.Has(op) && !tProj.Has(op), "C16-R1", fn.Name()+":url(clusters/)", c.InstrPos(sp), "segment after clusters/ is the per-host parameter", "the segment after 'clusters/' is not the host being downloaded")
-					}
-				case i == 0 && p == "":
-					// BaseURL: R4
+			for si, shape := range shapes {
+				sfx := ""
+				if si > 0 {
+					sfx = fmt.Sprintf("~alt%d", si)
 				}
-			}
-			if strings.Contains(format, "startDate=") != strings.Contains(format, "endDate=") {
-				r.Bad("C16-R1", fn.Name()+":url(window)", c.InstrPos(sp), "URL carries only one end of the window")
-			}
-			if fn == a.perHost && !strings.Contains(format, "startDate=") {
-				r.Bad("C16-R1", fn.Name()+":url(window)", c.InstrPos(sp), "log URL does not carry the requested window")
+				format := shape.text()
+				pre, ops := shape.operands()
+				sp := nr
+				for i, p := range pre {
+					op := peel(ops[i])
+					switch {
+					case strings.HasSuffix(p, "startDate="):
+						r.Check(t0.Has(op) && !t1.Has(op), "C16-R1", fn.Name()+":url(startDate=)"+sfx, c.InstrPos(sp), "operand after startDate= is the window start", "the operand after 'startDate=' is not the start of the requested window (crossed or lost)")
+					case strings.HasSuffix(p, "endDate="):
+						r.Check(t1.Has(op) && !t0.Has(op), "C16-R1", fn.Name()+":url(endDate=)"+sfx, c.InstrPos(sp), "operand after endDate= is the window end", "the operand after 'endDate=' is not the end of the requested window (crossed or lost)")
+					case strings.HasSuffix(p, "groups/"):
+						r.Check(tProj.Has(op) && !tClu.Has(op), "C16-R1", fn.Name()+":url(groups/)"+sfx, c.InstrPos(sp), "segment after groups/ is --atlasProjectId", "the segment after 'groups/' is not the project id")
+					case strings.HasSuffix(p, "clusters/"):
+						if wantHostRole == "cluster" {
+							r.Check(tClu.Has(op) && !tProj.Has(op), "C16-R1", fn.Name()+":url(clusters/)"+sfx, c.InstrPos(sp), "segment after clusters/ is --atlasClusterName", "the segment after 'clusters/' is not the cluster name")
+						} else {
+							// must be the host parameter bound from the host-loop element (R3 checks the binding)
+							_, isParam := op.(*ssa.Parameter)
+							r.Check(isParam && !tClu.Has(op) && !tProj.Has(op), "C16-R1", fn.Name()+":url(clusters/)"+sfx, c.InstrPos(sp), "segment after clusters/ is the per-host parameter", "the segment after 'clusters/' is not the host being downloaded")
+						}
+					case i == 0 && p == "":
+						// BaseURL: R4
+					default:
+						r.Undecided("C16-R1", fn.Name()+":url(?)"+sfx, c.InstrPos(sp), fmt.Sprintf("an operand of the request URL follows %q: not a position the rule knows (URL shape %q)", p, format))
+					}
+				}
+				if strings.Contains(format, "startDate=") != strings.Contains(format, "endDate=") {
+					r.Bad("C16-R1", fn.Name()+":url(window)"+sfx, c.InstrPos(sp), "URL carries only one end of the window")
+				}
+				if fn == a.perHost && !strings.Contains(format, "startDate=") {
+					r.Bad("C16-R1", fn.Name()+":url(window)"+sfx, c.InstrPos(sp), "log URL does not carry the requested window")
+				}
 			}
 		}
 	}
@@ -299,18 +303,24 @@ func ruleC16(c *Ctx, r *Report) {
 			}
 			urlArg := nr.Call.Args[len(nr.Call.Args)-2]
 			okB := false
-			if sp, ok := urlArg.(*ssa.Call); ok && calleeKey(&sp.Call) == "fmt.Sprintf" {
-				format, _ := constString(sp.Call.Args[0])
-				ops := varargValues(sp.Call.Args[1])
-				if strings.HasPrefix(format, "%s/") && len(ops) > 0 {
-					if ld, ok := peel(ops[0]).(*ssa.UnOp); ok {
+			shapes := urlShapes(urlArg, nr.Block())
+			if len(shapes) > 0 {
+				okB = true
+			}
+			for _, shape := range shapes {
+				okS := false
+				if len(shape) >= 2 && shape[0].Val != nil && shape[1].Val == nil && strings.HasPrefix(shape[1].Lit, "/") {
+					if ld, ok := peel(shape[0].Val).(*ssa.UnOp); ok {
 						if fa, ok := ld.X.(*ssa.FieldAddr); ok {
 							n, fv := fieldOf(fa)
 							if n != nil && n.Obj().Name() == "AtlasClient" && fv.Name() == "BaseURL" {
-								okB = true
+								okS = true
 							}
 						}
 					}
+				}
+				if !okS {
+					okB = false
 				}
 			}
 			r.Check(okB, "C16-R4", construct, c.InstrPos(nr), "URL = Sprintf(\"%s/...\", c.BaseURL, ...)", "request URL does not start with the client's BaseURL")
